@@ -149,8 +149,18 @@ pub fn gen(seed: u64, n: usize, out: &mut Out) {
                 a = AbsGraph { directed: a.directed, n, edges };
                 out.stat("kind_blossom");
             }
+            let large = r.chance(45);
+            if large {
+                // 14..28 nodes, 1.5 n .. 1.9 n random edges (multigraph, self-loops): many searches, nested blossoms, the same edge
+                // joins blossoms in several searches; too large for the exhaustive optimum of the oracle, which then checks validity
+                // only - the mate vector is still compared entry by entry with the mirror
+                let n = 14 + r.below(15); let m = n * (150 + r.below(41)) / 100;
+                let edges: Vec<(usize, usize, i64)> = (0..m).map(|_| (r.below(n), r.below(n), 1)).collect();
+                a = AbsGraph { directed: false, n, edges };
+                out.stat("kind_large_matching");
+            }
             let encs = [0usize, 2, 3, 4, 5, 6];
-            let mut enc = encs[r.below(6)];
+            let mut enc = if large { [0usize, 2][r.below(2)] } else { encs[r.below(6)] };
             if !enc_ok(enc, &a, false) { enc = if r.chance(50) { 0 } else { 2 }; }
             out.stat(if a.directed { "match_directed" } else { "match_undirected" });
             run_match(id, &a, enc, &mut r, out);
